@@ -1,3 +1,3 @@
-from . import core, strings, iters, maps, cell, errors, nums, fmt, pctenc, regexm
+from . import core, strings, iters, maps, cell, errors, nums, fmt, pctenc, regexm, timem
 ALL_MODELS = core.REG
 CONST_MODELS = dict(pctenc.CONST_MODELS)
